@@ -35,6 +35,16 @@ def gen_hostile(tier, rng):
        leave a file that parses or refuse and leave the bytes alone."""
     n = 700 if tier == "quick" else 80000
     out = []
+    # the first and the last day of the calendar with times shifted beyond them: whatever looks at the neighbouring day
+    # after the file has been written (warnings, for instance) must not turn a successful write into a crash
+    import datetime as _dt
+    now = _dt.datetime(2021, 3, 14, 10, 0)
+    for date, entry in (("9999-12-31", "23:00 - 1:00>"), ("9999-12-31", "0:30> - ?"), ("9999-12-31", "1h"), ("0000-01-01", "<23:00 - 1:00"),
+                        ("0000-01-01", "<22:00 - ?"), ("9999-12-30", "23:00 - 1:00>"), ("0000-01-02", "<23:00 - 1:00")):
+        for file0 in (b"", ("%s\n    2h\n" % date).encode(), ("%s\n    23:30 - 0:10>\n    <23:50 - ?\n" % date).encode(), b"2000-01-01\n    1h\n"):
+            steps = [Step(now, "track", [hx(date.encode()), hl([entry])]), Step(now, "stop", [hx(date.encode()), hx(b"23:59"), "_", "_"]),
+                     Step(now, "create", [hx(date.encode()), "_", "_"])]
+            out.append(history_request(file0, ["_", "_", "_", "_"], steps))
     while len(out) < n:
         doc, cfg, steps = make_history(rng, max_steps=3)
         touched = False
